@@ -259,6 +259,7 @@ struct Prog {
     a_len: usize,
     /// contains callA / callB / callA1gas
     has_call: bool,
+    sched: Sched,
 }
 
 fn prog(env: &Env, seq: &[u64]) -> Prog {
@@ -289,6 +290,7 @@ fn prog(env: &Env, seq: &[u64]) -> Prog {
         locs,
         a_len: env.a_len,
         has_call: seq.iter().any(|l| LETTERS[*l as usize].starts_with("call")),
+        sched: env.sched,
     }
 }
 
@@ -761,7 +763,8 @@ fn check_case(env: &Env, p: &Prog, refs: &Refs, mode: &Mode) -> CaseReport {
             rep.violation = Some((
                 format!("C32:{}:{scope}{rule}", mode.name()),
                 format!(
-                    "program {:?}, {}{}: {detail}",
+                    "{} gas schedule, program {:?}, {}{}: {detail}",
+                    p.sched.name(),
                     p.names,
                     describe_mode(p, mode),
                     if txi == 1 { " (second transaction on the same VM)" } else { "" }
@@ -787,6 +790,7 @@ fn case_json(p: &Prog, mode: &Mode) -> Value {
         Mode::Single(false) => ("single-step", 0, 0),
     };
     json!({
+        "world": p.sched.name(),
         "letters": p.seq,
         "program": p.names,
         "mode": kind,
@@ -798,9 +802,11 @@ fn case_json(p: &Prog, mode: &Mode) -> Value {
 }
 
 /// All modes of a program, simplest first (fewest breakpoints), then single-stepping.
+/// Default world: a program without a call letter never executes A, so only the empty contract
+/// subset is run there (the armed-but-unreached contract subsets are covered by the unit world).
 fn modes(p: &Prog) -> Vec<Mode> {
     let ns = 1u32 << p.locs.len();
-    let nc = 1u32 << code_a().len();
+    let nc = if p.sched == Sched::Default && !p.has_call { 1 } else { 1u32 << p.a_len };
     let mut v: Vec<(u32, Mode)> = vec![];
     for s in 0..ns {
         for c in 0..nc {
@@ -819,6 +825,8 @@ fn modes(p: &Prog) -> Vec<Mode> {
 #[derive(Default)]
 struct Acc {
     programs: u64,
+    /// default world: uninterrupted run longer than the step cap (left to the unit world)
+    too_long: u64,
     skipped: u64,
     cases: u64,
     cases_with_events: u64,
@@ -838,7 +846,10 @@ struct Acc {
 
 fn run_program(env: &Env, seq: &[u64], acc: &mut Acc) {
     let p = prog(env, seq);
-    let refs = refs(env, &p);
+    let Some(refs) = refs(env, &p) else {
+        acc.too_long += 1;
+        return
+    };
     acc.programs += 1;
     acc.trace_steps += (refs.trace[0].len() + refs.trace[1].len()) as u64;
     acc.max_trace = acc.max_trace.max(refs.trace[0].len());
@@ -865,7 +876,7 @@ fn run_program(env: &Env, seq: &[u64], acc: &mut Acc) {
         acc.max_events = acc.max_events.max(rep.event_locs.len());
         if !rep.event_locs.is_empty() {
             acc.cases_with_events += 1;
-            acc.fps.insert(hash64(&(&rep.event_locs, &label, &label2)));
+            acc.fps.insert(hash64(&(p.sched.name(), &rep.event_locs, &label, &label2)));
         }
         if let Some((key, what)) = rep.violation {
             let e = acc.viols.entry(key).or_insert_with(|| (what, case_json(&p, mode), 0));
@@ -873,7 +884,7 @@ fn run_program(env: &Env, seq: &[u64], acc: &mut Acc) {
         }
     }
     // sample candidates (one per outcome class): all breakpoints armed; prefer events inside A and revisits
-    let full = Mode::Breakpoints((1u32 << p.locs.len()) - 1, (1u32 << code_a().len()) - 1);
+    let full = Mode::Breakpoints((1u32 << p.locs.len()) - 1, (1u32 << p.a_len) - 1);
     let rep = check_case(env, &p, &refs, &full);
     let distinct: HashSet<Loc> = rep.event_locs.iter().copied().collect();
     let score = 10 * distinct.len() as u64
@@ -885,6 +896,7 @@ fn run_program(env: &Env, seq: &[u64], acc: &mut Acc) {
         *best = (
             score,
             json!({
+                "world": p.sched.name(),
                 "program": p.names,
                 "mode": describe_mode(&p, &full),
                 "uninterrupted": {"outcome": label, "steps": refs.trace[0].len(), "receipts": refs.fin[0].receipts.len(), "final_state": format!("{:?}", refs.fin[0].state)},
@@ -925,6 +937,7 @@ fn pass(ctx: &Ctx, env: &Env, k: u32, lo: u64, hi: u64, tot: &mut Acc) {
         },
         |a| {
             tot.programs += a.programs;
+            tot.too_long += a.too_long;
             tot.skipped += a.skipped;
             tot.cases += a.cases;
             tot.cases_with_events += a.cases_with_events;
@@ -958,11 +971,12 @@ fn pass(ctx: &Ctx, env: &Env, k: u32, lo: u64, hi: u64, tot: &mut Acc) {
 fn explore(ctx: &Ctx) {
     let k = ctx.pick(3u32, 4u32);
     ctx.rule(format!(
-        "every program of <= {k} letters over LETTERS (shortest first) x every subset of the script breakpoint locations (last set-up \
-         instruction, body instructions, final ret, subroutine entry) x every subset of contract A's 3 instructions (fewest breakpoints \
+        "two worlds (unit gas schedule with gas limit 48; default gas schedule with ample gas and a step cap, see `worlds`): \
+         every program of <= {k} letters over LETTERS (shortest first) x every subset of the script breakpoint locations (last set-up \
+         instruction, body instructions, final ret, subroutine entry) x every subset of contract A's instructions (fewest breakpoints \
          first) + single-stepping (without / with all breakpoints); each case = two transactions on one VM driven by transact + \
          resume-until-done and compared with the uninterrupted runs and their step-wise traces. A case is non-trivial when at least \
-         one debug event was reported; distinct = distinct (sequence of event locations of the first transaction, outcome of both \
+         one debug event was reported; distinct = distinct (world, sequence of event locations of the first transaction, outcome of both \
          transactions)"
     ));
     ctx.assume("the uninterrupted references come from the same interpreter build: `transact` without any debugger call, and `init_script` + `execute` stepping with an inactive debugger");
@@ -979,62 +993,94 @@ fn explore(ctx: &Ctx) {
     );
     ctx.set("strict_mode_C32_STRICT", json!(strict()));
     ctx.set("letters", json!(LETTERS));
-    ctx.set("gas_limit", json!(GAS_LIMIT));
+    ctx.set(
+        "worlds",
+        json!({
+            "unit": {"gas_schedule": "GasCosts::unit()", "gas_limit": GAS_LIMIT_UNIT,
+                     "contract_a": ["log $one", "mint 1 coin of sub-asset [$fp..$fp+32]", "ret $one"],
+                     "contract_b": ["log $one $one", "call A", "ret $one"],
+                     "modes": "all script subsets x all 2^3 subsets of A + 2 single-step modes"},
+            "default": {"gas_schedule": "ConsensusParameters::standard() (hot/cold storage reads differ)", "gas_limit": GAS_LIMIT_DEFAULT, "step_cap": MAX_TRACE_DEFAULT,
+                     "contract_a": ["sww [$fp] := 1", "log $one", "srw [$fp] (hot in an uninterrupted run)", "ret"],
+                     "contract_b": ["swwq [$fp]", "call A", "cfei 32", "subi r16 $sp 32", "srwq r16 [$fp]", "scwq [$fp]", "ret $one"],
+                     "modes": "all script subsets x all 2^4 subsets of A (programs without a call letter: empty A subset only) + 2 single-step modes; programs whose uninterrupted run exceeds the step cap are left to the unit world"},
+        }),
+    );
     ctx.set(
         "script_layout",
         json!("prelude(9) | ji 12 | SUB(10): log | jal $zero r0x13 | movi r0x10 2 | movi r0x11 5 (13) | body (14..) | ret $one | rvrt $one"),
     );
-    ctx.set("contract_a", json!(["log $one", "mint 1 coin of sub-asset [$fp..$fp+32]", "ret $one"]));
-    ctx.set("contract_b", json!(["log $one $one", "call A", "ret $one"]));
 
-    let env = env();
     let nprog = space::seq_count(LETTERS.len() as u64, k);
-    let mut tot = Acc::default();
-    // one pass per program length, so that a run cut short by the time budget still completes
-    // all shorter programs
+    let envs = [env(Sched::Unit), env(Sched::Default)];
+    let mut tots = [Acc::default(), Acc::default()];
+    // one pass per program length (both worlds), so that a run cut short by the time budget still
+    // completes all shorter programs
     let mut per_length: Vec<Value> = vec![];
     for len in 0..=k {
         let lo = if len == 0 { 0 } else { space::seq_count(LETTERS.len() as u64, len - 1) };
         let hi = space::seq_count(LETTERS.len() as u64, len);
-        let (before_run, before_skipped) = (tot.programs, tot.skipped);
-        pass(ctx, &env, k, lo, hi, &mut tot);
-        per_length.push(json!({"letters": len, "programs": hi - lo, "run": tot.programs - before_run, "not_run": tot.skipped - before_skipped}));
-    }
-    ctx.set("programs_per_length", json!(per_length));
-    ctx.evals(tot.cases);
-    ctx.outcomes_merge(&tot.outcomes);
-    for (_, (score, s)) in tot.samples.iter() {
-        if *score > 0 {
-            ctx.sample(s.clone());
+        for (env, tot) in envs.iter().zip(tots.iter_mut()) {
+            let (r0, l0, s0) = (tot.programs, tot.too_long, tot.skipped);
+            pass(ctx, env, k, lo, hi, tot);
+            per_length.push(json!({"world": env.sched.name(), "letters": len, "programs": hi - lo, "run": tot.programs - r0,
+                                   "longer_than_step_cap": tot.too_long - l0, "not_run": tot.skipped - s0}));
         }
     }
-    if tot.skipped > 0 {
-        ctx.cap(format!("time budget: {} of {} programs not run (see programs_per_length; shorter programs are completed first)", tot.skipped, nprog));
+    ctx.set("programs_per_length", json!(per_length));
+    let mut space_info = BTreeMap::new();
+    let mut events_info = BTreeMap::new();
+    let mut viol_counts: BTreeMap<String, u64> = BTreeMap::new();
+    for (env, tot) in envs.iter().zip(tots.iter()) {
+        let w = env.sched.name();
+        ctx.evals(tot.cases);
+        ctx.outcomes_merge(&tot.outcomes.iter().map(|(k, v)| (format!("{w} | {k}"), *v)).collect::<BTreeMap<String, u64>>());
+        let mut samples: Vec<&(u64, Value)> = tot.samples.values().filter(|s| s.0 > 0).collect();
+        samples.sort_by(|a, b| b.0.cmp(&a.0));
+        for (_, s) in samples.into_iter().take(4) {
+            ctx.sample(s.clone());
+        }
+        if tot.skipped > 0 {
+            ctx.cap(format!("time budget: {w} world: {} of {} programs not run (see programs_per_length; shorter programs are completed first)", tot.skipped, nprog));
+        }
+        space_info.insert(
+            w,
+            json!({
+                "k": k,
+                "programs_in_space": nprog,
+                "programs_run": tot.programs,
+                "programs_longer_than_step_cap": tot.too_long,
+                "cases (program x mode, two transactions each)": tot.cases,
+                "cases_with_at_least_one_event": tot.cases_with_events,
+                "programs_visiting_a_location_more_than_once": tot.programs_with_repeated_visit,
+                "reference_trace_steps": tot.trace_steps,
+                "longest_trace": tot.max_trace,
+                "most_events_in_one_run": tot.max_events,
+            }),
+        );
+        events_info.insert(
+            w,
+            json!({
+                "tx1": {"events": tot.events[0], "inside_contract_A_or_B": tot.events_in_contract[0], "missed_visits": tot.missed[0]},
+                "tx2": {"events": tot.events[1], "inside_contract_A_or_B": tot.events_in_contract[1], "missed_visits": tot.missed[1]},
+            }),
+        );
+        for (k, v) in &tot.viols {
+            *viol_counts.entry(k.clone()).or_default() += v.2;
+        }
     }
-    ctx.set(
-        "space",
-        json!({
-            "k": k,
-            "programs_in_space": nprog,
-            "programs_run": tot.programs,
-            "cases (program x mode, two transactions each)": tot.cases,
-            "cases_with_at_least_one_event": tot.cases_with_events,
-            "programs_visiting_a_location_more_than_once": tot.programs_with_repeated_visit,
-            "reference_trace_steps": tot.trace_steps,
-            "longest_trace": tot.max_trace,
-            "most_events_in_one_run": tot.max_events,
-        }),
-    );
-    ctx.set(
-        "events",
-        json!({
-            "tx1": {"events": tot.events[0], "inside_contract_A_or_B": tot.events_in_contract[0], "missed_visits": tot.missed[0]},
-            "tx2": {"events": tot.events[1], "inside_contract_A_or_B": tot.events_in_contract[1], "missed_visits": tot.missed[1]},
-            "missed_visits_meaning": "visits of armed locations in the uninterrupted trace for which no event was reported (don't-care, information only)",
-        }),
-    );
-    if !tot.viols.is_empty() {
-        ctx.set("violating_cases_per_key", json!(tot.viols.iter().map(|(k, v)| (k.clone(), v.2)).collect::<BTreeMap<_, _>>()));
+    ctx.set("space", json!(space_info));
+    ctx.set("events", json!(events_info));
+    ctx.set("missed_visits_meaning", json!("visits of armed locations in the uninterrupted trace for which no event was reported (don't-care, information only)"));
+    if !viol_counts.is_empty() {
+        ctx.set("violating_cases_per_key", json!(viol_counts));
+    }
+}
+
+fn world_of(case: &Value) -> Sched {
+    match case["world"].as_str() {
+        Some("default") => Sched::Default,
+        _ => Sched::Unit,
     }
 }
 
@@ -1046,21 +1092,24 @@ fn replay(case: &Value, ctx: &Ctx) {
         Some("single-step+all") => Mode::Single(true),
         other => panic!("unknown mode {other:?}"),
     };
-    let env = env();
+    let env = env(world_of(case));
     let p = prog(&env, &seq);
-    let refs = refs(&env, &p);
+    let refs = refs(&env, &p).expect("replayed program within the step cap");
     let rep = check_case(&env, &p, &refs, &mode);
     if let Some((key, what)) = rep.violation {
         ctx.violation(key, what, case_json(&p, &mode));
     }
 }
 
-/// Development aid: `C32_SHOW=4,4,11 c32` prints the uninterrupted trace of one program.
+/// Development aid: `C32_SHOW=4,4,11 [C32_WORLD=default] c32` prints the uninterrupted trace of one program.
 fn show(spec: &str) {
     let seq: Vec<u64> = spec.split(',').filter(|x| !x.is_empty()).map(|x| x.trim().parse().expect("letter index")).collect();
-    let env = env();
+    let env = env(if std::env::var("C32_WORLD").as_deref() == Ok("default") { Sched::Default } else { Sched::Unit });
     let p = prog(&env, &seq);
-    let refs = refs(&env, &p);
+    let Some(refs) = refs(&env, &p) else {
+        println!("program {:?}: longer than the step cap", p.names);
+        return
+    };
     println!("program {:?}: {} | second tx {}", p.names, outcome_label(&refs.fin[0]), outcome_label(&refs.fin[1]));
     for (i, t) in refs.trace[0].iter().enumerate() {
         println!("  step {i}: {} $ggas={} $cgas={} receipts={}", loc_str(&t.loc), t.regs[9], t.regs[10], t.nrec);
